@@ -433,6 +433,7 @@ func checkC11(c *ev.Ctx) {
 					return
 				}
 				id := fmt.Sprintf("f%d", i)
+				noteCase(id)
 				if !want(c, id) {
 					continue
 				}
